@@ -321,6 +321,9 @@ pub struct Inner {
     pub emulate: bool,
     /// the width reported to the code under test when it differs from the grid (0-column terminals)
     pub report_cols: Option<u16>,
+    /// the height reported to the code under test when it is smaller than the grid (a terminal that
+    /// was made smaller: what is drawn must fit the reported height, nothing scrolls unexpectedly)
+    pub report_rows: Option<u16>,
 }
 
 #[derive(Clone, Debug)]
@@ -349,6 +352,7 @@ impl VTerm {
             record_flush_times: false,
             emulate: true,
             report_cols: None,
+            report_rows: None,
         })))
     }
 
@@ -411,6 +415,12 @@ impl VTerm {
         } else {
             Err(format!("unexpected write pattern: {} write_line, writes {:?}", g.last_nl, w))
         }
+    }
+
+    /// writes made since the last flush: on a buffering terminal they have not reached the screen yet
+    pub fn unflushed(&self) -> usize {
+        let g = self.lock();
+        g.cur_writes.iter().filter(|w| !w.is_empty()).count() + g.cur_nl
     }
 
     pub fn take_frames(&self) -> Vec<Frame> {
@@ -555,7 +565,7 @@ impl TermLike for VTerm {
     fn height(&self) -> u16 {
         let mut g = self.lock();
         g.nqueries += 1;
-        g.grid.rows as u16
+        g.report_rows.unwrap_or(g.grid.rows as u16)
     }
     fn move_cursor_up(&self, n: usize) -> io::Result<()> {
         self.op(Call::Up(n))
